@@ -256,6 +256,7 @@ func (t *Dense) GobEncode() (p []byte, err error){
 
 const gobDecodeRaw = `// GobDecode implements gob.GobDecoder
 func (t *Dense) GobDecode(p []byte) (err error){
+	t.forgetBeforeDecode()
 	buf := bytes.NewBuffer(p)
 	decoder := gob.NewDecoder(buf)
 
@@ -307,6 +308,7 @@ const shapeRE = `var shapeRE = regexp.MustCompile(` + "`" + `'shape':\s*\(([^\(]
 
 const readNpyRaw = `// ReadNpy reads NumPy formatted files into a *Dense
 func (t *Dense) ReadNpy(r io.Reader) (err error){
+	t.forgetBeforeDecode()
 	br := binaryReader{Reader: r}
 	var magic [6]byte
 	if br.Read(magic[:]); string(magic[:]) != "\x93NUMPY" {
@@ -464,6 +466,7 @@ func convFromStrs(to Dtype, record []string, into interface{}) (interface{}, err
 //
 // BUG(chewxy): reading CSV doesn't handle CSVs with different columns per row yet.
 func (t *Dense) ReadCSV(r io.Reader, opts ...FuncOpt) (err error) {
+	t.forgetBeforeDecode()
 	fo := ParseFuncOpts(opts...)
 	as := fo.As()
 	if as.Type == nil {
@@ -570,6 +573,7 @@ func (t *Dense) FBEncode() ([]byte, error) {
 
 // FBDecode decodes a byteslice from a flatbuffer table into a *Dense
 func (t *Dense) FBDecode(buf []byte) error {
+	t.forgetBeforeDecode()
 	serialized := fb.GetRootAsDense(buf, 0)
 
 	o := serialized.O()
@@ -666,6 +670,7 @@ func (t *Dense) PBEncode() ([]byte, error) {
 
 // PBDecode unmarshalls a protobuf byteslice into a *Dense.
 func (t *Dense) PBDecode(buf []byte) error {
+	t.forgetBeforeDecode()
 	var toSerialize pb.Dense
 	if err := toSerialize.Unmarshal(buf); err != nil {
 		return err
